@@ -368,4 +368,49 @@ theorem sendAll_spec {k iv dg} : ∀ (ops : List SendOp) (s s' : Stream) (c : Na
             by_cases hc0 : c = 0 <;> simp [frameAt, Body.wireLen, sealedAt, hc0] <;> omega
           · exact hall g hg
 
+
+/-- per-frame facts about what `sendAll` emitted, by position -/
+theorem sendAll_items {k iv dg} : ∀ (ops : List SendOp) (s s' : Stream) (c : Nat) (sent : List WireFrame),
+    SendInv s k iv dg c → s.sendAll ops = .ok (s', sent) →
+    ∃ items, sent = framesFrom k iv dg c items ∧ items.map Item.op = ops ∧
+      c + items.length ≤ counterLimit ∧
+      (∀ j it, items[j]? = some it →
+         it.len = it.plain.length + tagLen + (if c + j = 0 then ivLen else 0) ∧ it.len ≤ maxMessageSize) := by
+  intro ops
+  induction ops with
+  | nil =>
+    intro s s' c sent hinv h
+    simp only [Stream.sendAll, Except.ok.injEq, Prod.mk.injEq] at h
+    obtain ⟨rfl, rfl⟩ := h
+    exact ⟨[], rfl, rfl, by simpa using hinv.bound, by simp⟩
+  | cons op rest ih =>
+    intro s s' c sent hinv h
+    obtain ⟨d, fl⟩ := op
+    unfold Stream.sendAll at h
+    split at h
+    · cases h
+    · rename_i s1 f hsf
+      split at h
+      · cases h
+      · rename_i s2 fs hrest
+        simp only [Except.ok.injEq, Prod.mk.injEq] at h
+        obtain ⟨rfl, rfl⟩ := h
+        obtain ⟨hlt, hmax, hf, hlen, hinv1, _, _⟩ := sendFrame_spec hinv hsf
+        obtain ⟨items, hsent, hops, hl, hall⟩ := ih s1 s2 (c + 1) fs hinv1 hrest
+        refine ⟨⟨fl, f.len, d⟩ :: items, ?_, ?_, ?_, ?_⟩
+        · simp [framesFrom, ← hf, hsent]
+        · simp [Item.op, hops]
+        · simp; omega
+        · intro j it hj
+          cases j with
+          | zero =>
+            simp only [List.getElem?_cons_zero, Option.some.injEq] at hj
+            subst hj
+            exact ⟨by simpa using hlen, hmax⟩
+          | succ j =>
+            simp only [List.getElem?_cons_succ] at hj
+            have := hall j it hj
+            have e : c + 1 + j = c + (j + 1) := by omega
+            simpa [e] using this
+
 end Cedar
